@@ -44,6 +44,7 @@ type Product struct {
 	Picture    []byte
 	Discontinued sql.NullTime
 	Note       sql.NullString
+	guard      Tier `gomacro-sql-guard:"#[Tier.Basic]"`
 }
 
 // Order references a customer (cascade) and optionally a referrer (set null).
